@@ -160,14 +160,9 @@ def c12_r3(ctx):
                 ctx.ok()
             else:
                 ctx.viol(("sort::TopologicalSortMachine", "leaves-unordered"), "source leaves are kept in %s: leaf order (hence channel wiring and thread order) is not canonical" % fld["ty"]["s"])
-    for g in sort_fns(ctx.P):
-        for c in g.calls:
-            ep = erase_generics(c.path)
-            if (ep.startswith("std::collections::HashMap::") or ep.startswith("std::collections::HashSet::")) and \
-                    c.name in ("iter", "iter_mut", "keys", "values", "values_mut", "into_iter", "drain", "into_keys", "into_values", "retain"):
-                ctx.viol((g.id, "hash-order-iteration", c.name), "hash-order iteration in the sorter: the plan would differ between runs", c.where)
-            if c.path == "std::iter::IntoIterator::into_iter" and c.self_ty and ("HashMap<" in c.self_ty or "HashSet<" in c.self_ty):
-                ctx.viol((g.id, "hash-order-iteration", "into_iter"), "hash-order iteration in the sorter: the plan would differ between runs", c.where)
+    import zero
+    for (g, c) in zero.hash_order_iterations(sort_fns(ctx.P)):
+        ctx.viol((g.id, "hash-order-iteration", c.name), "hash-order iteration in the sorter: the plan would differ between runs", c.where)
 
 
 @rule("C12.R4", floor=2)
